@@ -258,3 +258,15 @@ def run(ctx):
                     probs += check_path(o, thobj, PTR("CPU0"))
                 ctx.check(not probs, "R5.1", inst, fn.loc(), "; ".join(sorted(set(probs))),
                           )
+
+
+    # ---- R5.5 ---------------------------------------------------------------
+    ctx.rule("R5.5", "the CPU a thread is bound to is the one the event names: events give logical CPU indices, and "
+             "loom_init_end's index table maps index i to the CPU whose logical index is i whatever the order of the "
+             "CPU list (C15 R15.4's evaluation); with the channel properties cpu_init_end sets, a recount that "
+             "republishes unchanged NRUN / TID / PID values (a paused thread joins, a third thread runs on the virtual "
+             "CPU) is accepted by chan.c's own chan_set")
+    from rules import round3
+    round3.share(ctx, "R5.5", "C15", lambda i_: i_["rule"] == "R15.4" and i_["inst"].startswith("loom_init_end:"),
+                 "index-table:", "threads are bound to, and counted on, the wrong CPU", 8)
+    round3.check_cpu_recount_accepted(ctx, "R5.5")
